@@ -603,7 +603,7 @@ def get_bs_cached(Rmax, order=2, odd=False, direction='inverse', reg=None,
 
     prm = [Rmax, order, odd]
     if _bs is None or _bs_prm != prm:
-        _bs_prm = prm
+        _bs_prm = None  # (invalid until the new basis set is ready)
         # try to load basis set and maybe inverse-transform matrices
         _bs, _tri_full = _load_bs(basis_dir, Rmax, order, odd,
                                   direction == 'inverse' and reg is None,
@@ -613,6 +613,7 @@ def get_bs_cached(Rmax, order=2, odd=False, direction='inverse', reg=None,
                 print('Computing basis set...')
             _bs = _bs_rbasex(Rmax, order, odd)
             new_bs = True
+        _bs_prm = prm
         # reset transforms
         _trf = None
         _tri_prm = None
